@@ -388,12 +388,18 @@ impl FeoxStore {
             sector += sectors_needed as u64;
         }
 
+        // Superseded generations are retired before expired winners, in a journal
+        // transaction of their own: retire_extents journals long lists chunk by chunk, and a
+        // crash between two chunks must never find an expired newest generation already
+        // retired while an older generation of the same key is still on the device.
+        let superseded_extents = retired_extents.len();
         if let Some(now) = recovery_time {
             self.remove_expired_recovery_winners(now, format, &mut retired_extents)?;
         }
 
         if !self.read_only {
-            disk.retire_extents(&retired_extents)?;
+            disk.retire_extents(&retired_extents[..superseded_extents])?;
+            disk.retire_extents(&retired_extents[superseded_extents..])?;
         }
 
         if last_end < total_sectors {
